@@ -547,7 +547,12 @@ pub fn random_edit(prop: &str, rng: &mut Rng, world: &mut World) -> Option<J> {
                     let desc;
                     // an order-only edge to a generated file that the command also reports as a
                     // dependency is what gives that dependency its ordering path: keep it
-                    let reported: Vec<String> = s.extra_reads.iter().map(|r| canon_ref(r)).collect();
+                    let mut reported: Vec<String> = s.extra_reads.iter().map(|r| canon_ref(r)).collect();
+                    for r in &world.st.records {
+                        if r.outs.iter().any(|o| s.all_outs().any(|x| x == o)) {
+                            reported.extend(r.deps.iter().cloned());
+                        }
+                    }
                     if !s.oos.is_empty() && !reported.contains(&s.oos[0]) && rng.chance(1, 2) {
                         let f = s.oos.remove(0);
                         desc = format!("{} order-only {}", s.id, f);
@@ -610,6 +615,10 @@ pub fn random_edit(prop: &str, rng: &mut Rng, world: &mut World) -> Option<J> {
                 return None;
             }
             let o = format!("x{}_{}", world.proj.steps[i].id, rng.below(1000));
+            // (a name the step already lists would be a repeated output, which n2 folds into one)
+            if world.proj.steps.iter().any(|s| s.all_outs().any(|x| *x == o)) {
+                return None;
+            }
             if rng.chance(1, 2) {
                 world.proj.steps[i].iouts.push(o.clone());
             } else {
